@@ -375,6 +375,16 @@ func (s *clientSocket) onConnect(_ *parser.PacketHeader, decode parser.Decode) {
 		s.connectErrorHandlers.forEach(func(handler *ClientSocketConnectErrorFunc) { (*handler)(err) }, true)
 	}
 
+	// `Disconnect` may have been called while the CONNECT packet was pending. The DISCONNECT
+	// packet is on its way to the server then, and this reply is of no use: a socket that
+	// became connected now would be connected on this side only, with nobody to tell it otherwise.
+	s.stateMu.RLock()
+	pending := s.state == clientSocketConnStateConnectPending
+	s.stateMu.RUnlock()
+	if !pending {
+		return
+	}
+
 	var v *sidInfo
 	vt := reflect.TypeOf(v)
 	values, err := decode(vt)
@@ -408,6 +418,12 @@ func (s *clientSocket) onConnect(_ *parser.PacketHeader, decode parser.Decode) {
 	s.setID(SocketID(v.SID))
 
 	s.stateMu.Lock()
+	if s.state != clientSocketConnStateConnectPending {
+		// Disconnected in the meantime (see above).
+		s.stateMu.Unlock()
+		s.setID("")
+		return
+	}
 	s.state = clientSocketConnStateConnected
 	s.stateMu.Unlock()
 
